@@ -374,7 +374,16 @@ def beta (l : Line) : IO Unit := do
 def tolQuad : Rat := mkRat 1 (10 ^ 9)
 def tolInv : Rat := mkRat 1 (10 ^ 8)
 
-def grid (l : Line) (sigma : Rat) : IO Unit := do
+/-- N12a — predicted cancellation error of `TDist.CDF` at x: the code forms ν/(ν+x²), the sum is
+rounded to 2^-53 relative, i.e. x² is known only to ν·2^-53; propagated through dF/d(x²) = pdf/(2x)
+this is ≤ ν·2^-52/|x|, and never more than |x| (the CDF collapses to ½). -/
+def cancelErr (nu x : Rat) : Rat :=
+  let a := rabs x
+  if a == 0 then 0 else
+  let e := nu * pow2 (-52) / a
+  if e < a then e else a
+
+def grid (l : Line) (sigma : Rat) (nu : Option Rat) : IO Unit := do
   let id := l.id
   let c := toRat (bitsD (l.getD "c"))
   let xsB := bitsList (l.getD "xs")
@@ -402,19 +411,43 @@ def grid (l : Line) (sigma : Rat) : IO Unit := do
           if x2 < c ∧ x + x2 == 2 * c ∧ rabs (f + f2 - 1) > tolSym then
             res := s!"bad(x~{showRat x},F+F'-1~{showRat (f + f2 - 1)})"
     return res
-  let quad := match ((xsB.zip F).zip QB).find? (fun ((_, f), q) => !(F64.isFinite q && rabs (f - toRat q) ≤ tolQuad)) with
-    | some ((x, f), q) => s!"bad(x={showB x},F~{showRat f},Q={showB q})" | none => "ok"
-  let inv := Id.run do
+  -- quadrature: clean within tolQuad; within the predicted cancellation error → known class N12a
+  let (quad, kfq) := Id.run do
     let mut res := "ok"
+    let mut kf := false
+    for ((x, f), q) in (xs.zip F).zip QB do
+      let dev := if F64.isFinite q then rabs (f - toRat q) else 1
+      if dev > tolQuad then
+        let pe := match nu with | some n => cancelErr n x | none => 0
+        if dev ≤ tolQuad + pe then
+          kf := true
+          if res == "ok" then res := s!"bad(x~{showRat x},F-Q~{showRat (f - toRat q)})"
+        else
+          return (s!"bad(x~{showRat x},F~{showRat f},Q={showB q})", false)
+    return (res, kf)
+  let (inv, kfi) := Id.run do
+    let mut res := "ok"
+    let mut kf := false
     for (((x, f), p), v) in ((xs.zip F).zip PB).zip VB do
       if f > 0 ∧ f < 1 ∧ F64.isFinite p ∧ toRat p > 0 then
         let cond := pow2 (-50) / toRat p
         if cond ≤ mkRat 1 1000 * sigma then
           let tol := tolInv * (rabs (x - c) + sigma) + cond
-          if !(F64.isFinite v && rabs (toRat v - x) ≤ tol) then
-            res := s!"bad(x~{showRat x},inv={showB v})"
-    return res
-  IO.println s!"spec {id} range={rng} mono={mono (xsB.zip F)} sym={sym} quad={quad} inv={inv}"
+          let dev := if F64.isFinite v then rabs (toRat v - x) else 1
+          if dev > tol then
+            -- N12a: the CDF is wrong by ≤ cancelErr around x, so its inverse is off by that / pdf;
+            -- at the centre the flat zone has half-width √(ν·2^-53)
+            let pe := match nu with
+              | some n => 4 * (cancelErr n x / toRat p + sqrtRat (n * pow2 (-52)))
+              | none => 0
+            if dev ≤ tol + pe then
+              kf := true
+              if res == "ok" then res := s!"bad(x~{showRat x},inv={showB v})"
+            else
+              return (s!"bad(x~{showRat x},inv={showB v})", false)
+    return (res, kf)
+  let tagN12a := if kfq ∨ kfi then " kf=N12a" else ""
+  IO.println s!"spec {id} range={rng} mono={mono (xsB.zip F)} sym={sym} quad={quad} inv={inv}{tagN12a}"
 
 /-! ### generic InvCDF on arithmetic-only distributions -/
 
@@ -445,12 +478,14 @@ def inv (l : Line) : IO Unit := do
   let slack : Rat := mkRat 1 (10 ^ 15)
   let verdict := match r with
     | .nan => if yq < 0 ∨ yq > 1 then "ok" else "bad(nan)"
-    | .negInf => if yq == 0 ∧ !finite then "ok" else if !finite ∧ yq < mkRat 1 (10 ^ 100) then "ok" else "bad(-inf)"
-    | .posInf => if yq == 1 ∧ !finite then "ok" else if !finite ∧ yq > 1 - mkRat 1 (10 ^ 15) then "ok" else "bad(+inf)"
+    -- y = 0 / y = 1: the bound when the CDF reaches 0 / 1 there (documented), else ∓Inf;
+    -- otherwise ±Inf only where no float64 argument reaches y (infinite support, extreme y)
+    | .negInf => if yq == 0 ∧ cdfQ (toRat bl.bits) != 0 then "ok" else if !finite ∧ yq < mkRat 1 (10 ^ 100) then "ok" else "bad(-inf)"
+    | .posInf => if yq == 1 ∧ cdfQ (toRat bh.bits) != 1 then "ok" else if !finite ∧ yq > 1 - mkRat 1 (10 ^ 15) then "ok" else "bad(+inf)"
     | .val x =>
       let xq := toRat x.bits
-      if yq == 0 then (if finite ∧ xq == toRat bl.bits then "ok" else "bad(y=0)")
-      else if yq == 1 then (if finite ∧ xq == toRat bh.bits then "ok" else "bad(y=1)")
+      if yq == 0 then (if cdfQ (toRat bl.bits) == 0 ∧ xq == toRat bl.bits then "ok" else "bad(y=0)")
+      else if yq == 1 then (if cdfQ (toRat bh.bits) == 1 ∧ xq == toRat bh.bits then "ok" else "bad(y=1)")
       else
         let δ := rmax (mkRat 2 (10 ^ 16)) (4 * ulp xq)
         if cdfQ xq < yq - slack then s!"bad(F(x)<y)"
@@ -466,8 +501,8 @@ def handle (l : Line) : IO Unit := do
   | "descr" => descr l
   | "ttest" => ttest l
   | "beta" => beta l
-  | "tcdf" => grid l 1
-  | "ncdf" => grid l (toRat (bitsD (l.getD "sigma")))
+  | "tcdf" => grid l 1 (some (toRat (bitsD (l.getD "nu"))))
+  | "ncdf" => grid l (toRat (bitsD (l.getD "sigma"))) none
   | "inv" => inv l
   | "sweep" => IO.println s!"spec {l.id} conv=ok"
   | _ => pure ()
